@@ -1,4 +1,5 @@
 import InfernoVerif.Lemmas.Select
+import InfernoVerif.Lemmas.SelectCast
 import Mathlib.Analysis.SpecialFunctions.Exp
 /-!
 # C02 — Time-indexed `select` / `insert` hit the right samples and interpolate between them
@@ -22,6 +23,8 @@ position, offset, time, kernel.
 * `insert_then_select` (general), `insert_then_select_on_grid` (any pair) and one theorem per shipped
   matching pair: `…_previous`, `…_next`, `…_nearest`, `…_linear_forward`, `…_linear_backward`,
   `…_expdecay`, `…_expratedecay`, `…_neighbors` (+ `…_neighbors_linear`);
+* `exact_select_is_real_select`, `exact_insert_is_real_insert`, `exact_kernels_are_generated`: the exact
+  (`Rat`) run the driver executes is the `ℝ` run the theorems are about;
 * negation witnesses, the `tol < 0` audit, non-vacuity examples.
 -/
 namespace InfernoVerif.Select
@@ -477,22 +480,58 @@ theorem interp_nearest_bracket : ∀ p q s d, interp_nearest p q s d = p ∨ int
   · exact Or.inl rfl
 
 
+
+/-! ## The exact run of the driver is the run the theorems are about
+
+`drivers/C02.lean` executes the SAME definitions at `ratOps` with the `Rat` kernels of
+`Model/SelectQ.lean`; on rational inputs that run, cast to `ℝ`, is the `realOps` run with the
+generated `ℝ` kernels — so every theorem above applies verbatim to what the correspondence check
+compares the real code with. -/
+
+/-- For any kernel pair commuting with the cast `ℚ → ℝ`. -/
+theorem exact_select_is_real_select (interpQ : Interp ℚ) (interpR : Interp ℝ)
+    (hi : ∀ p q s d : ℚ, interpR p q s d = ((interpQ p q s d : ℚ) : ℝ))
+    (r : Ring.Ring ℚ) (dt tol t : ℚ) (offset : ℤ) :
+    selectScalar realOps interpR (mapRing (fun q : ℚ => (q : ℝ)) r) dt tol t offset
+      = (selectScalar ratOps interpQ r dt tol t offset).map (fun q : ℚ => (q : ℝ)) ∧
+    selectTensor realOps interpR (mapRing (fun q : ℚ => (q : ℝ)) r) dt tol t offset
+      = (selectTensor ratOps interpQ r dt tol t offset).map (fun q : ℚ => (q : ℝ)) :=
+  ⟨selectScalar_hom ratOps_hom interpQ interpR hi r dt tol t offset,
+   selectTensor_hom ratOps_hom interpQ interpR hi r dt tol t offset⟩
+
+theorem exact_insert_is_real_insert (extrapQ : Extrap ℚ) (extrapR : Extrap ℝ)
+    (he : ∀ o s p q d : ℚ, extrapR o s p q d = (((extrapQ o s p q d).1 : ℝ), ((extrapQ o s p q d).2 : ℝ)))
+    (r : Ring.Ring ℚ) (dt tol obs t : ℚ) (offset : ℤ) (inplace : Bool) :
+    insertScalar realOps extrapR (mapRing (fun q : ℚ => (q : ℝ)) r) dt tol obs t offset inplace
+      = (insertScalar ratOps extrapQ r dt tol obs t offset inplace).map (mapRing (fun q : ℚ => (q : ℝ))) ∧
+    insertTensor realOps extrapR (mapRing (fun q : ℚ => (q : ℝ)) r) dt tol obs t offset
+      = (insertTensor ratOps extrapQ r dt tol obs t offset).map (mapRing (fun q : ℚ => (q : ℝ))) :=
+  ⟨insertScalar_hom ratOps_hom extrapQ extrapR he r dt tol obs t offset inplace,
+   insertTensor_hom ratOps_hom extrapQ extrapR he r dt tol obs t offset⟩
+
+/-- The kernel hypotheses hold for every rational kernel the driver executes, against the
+GENERATED `ℝ` kernels (`Lemmas/SelectQ.lean`; adjust functions: `none`, or any pair commuting with the cast). -/
+theorem exact_kernels_are_generated :
+    (∀ p q s d : ℚ, interp_previous p q s d = ((Q.interp_previous p q s d : ℚ) : ℝ)) ∧
+    (∀ p q s d : ℚ, interp_next p q s d = ((Q.interp_next p q s d : ℚ) : ℝ)) ∧
+    (∀ p q s d : ℚ, interp_nearest p q s d = ((Q.interp_nearest p q s d : ℚ) : ℝ)) ∧
+    (∀ p q s d : ℚ, interp_linear p q s d = ((Q.interp_linear p q s d : ℚ) : ℝ)) ∧
+    (∀ o s p q d : ℚ, extrap_previous o s p q d = (((Q.extrap_previous o s p q d).1 : ℝ), ((Q.extrap_previous o s p q d).2 : ℝ))) ∧
+    (∀ o s p q d : ℚ, extrap_next o s p q d = (((Q.extrap_next o s p q d).1 : ℝ), ((Q.extrap_next o s p q d).2 : ℝ))) ∧
+    (∀ o s p q d : ℚ, extrap_neighbors o s p q d = (((Q.extrap_neighbors o s p q d).1 : ℝ), ((Q.extrap_neighbors o s p q d).2 : ℝ))) ∧
+    (∀ o s p q d : ℚ, extrap_nearest o s p q d = (((Q.extrap_nearest o s p q d).1 : ℝ), ((Q.extrap_nearest o s p q d).2 : ℝ))) ∧
+    (∀ o s p q d : ℚ, extrap_linear_forward o s p q d none
+        = (((Q.extrap_linear_forward o s p q d none).1 : ℝ), ((Q.extrap_linear_forward o s p q d none).2 : ℝ))) ∧
+    (∀ o s p q d : ℚ, extrap_linear_backward o s p q d none
+        = (((Q.extrap_linear_backward o s p q d none).1 : ℝ), ((Q.extrap_linear_backward o s p q d none).2 : ℝ))) :=
+  ⟨fun p q s d => (Q.cast_interp_previous p q s d).symm, fun p q s d => (Q.cast_interp_next p q s d).symm,
+   fun p q s d => (Q.cast_interp_nearest p q s d).symm, fun p q s d => (Q.cast_interp_linear p q s d).symm,
+   fun o s p q d => (Q.cast_extrap_previous o s p q d).symm, fun o s p q d => (Q.cast_extrap_next o s p q d).symm,
+   fun o s p q d => (Q.cast_extrap_neighbors o s p q d).symm, fun o s p q d => (Q.cast_extrap_nearest o s p q d).symm,
+   fun o s p q d => (Q.cast_extrap_linear_forward o s p q d none none trivial).symm,
+   fun o s p q d => (Q.cast_extrap_linear_backward o s p q d none none trivial).symm⟩
+
 /-! ## Negation witnesses: natural-looking stronger statements that are FALSE -/
-
-/-- All-zero two-slot ring used by the witnesses. -/
-def z2 : Ring.Ring ℝ := ⟨2, 0, [0, 0]⟩
-theorem z2_wf : z2.WF := by unfold Ring.WF z2; simp
-
-theorem half_off_grid : ∀ k : ℤ, (0 : ℝ) < |(k : ℝ) * 1 - 1 / 2| := by
-  intro k
-  apply abs_pos.mpr
-  intro h
-  have h2 : (2 : ℝ) * (k : ℝ) = 1 := by linarith
-  have h3 : (2 : ℤ) * k = 1 := by exact_mod_cast h2
-  omega
-
-theorem half_in_range : InRange z2.n 1 0 (1 / 2) := by
-  unfold InRange z2; norm_num
 
 /-- (1) "Any extrapolation followed by any interpolation round-trips" is false off the grid:
 `extrap_previous` then `interp_next` returns the OLD newer sample (here `0`), not the inserted `1`
@@ -529,10 +568,6 @@ theorem linear_forward_pair_fails_at_zero :
 theorem linear_backward_pair_fails_at_dt :
     interp_linear (extrap_linear_backward 1 1 0 0 1 none).1 (extrap_linear_backward 1 1 0 0 1 none).2 1 1 ≠ 1 := by
   simp [interp_linear, extrap_linear_backward]
-
-theorem rhe_quarter : rhe ((1 / 4 : ℝ) / 1) = 0 := by
-  have hf : ⌊(1 / 4 : ℝ) / 1⌋ = 0 := by rw [Int.floor_eq_iff]; norm_num
-  unfold rhe; rw [hf]; norm_num
 
 /-- (3) `select_on_grid` without `2·tol < dt` is false: with `dt = 1`, `tol = 1`, `t = ¼` the multiple
 `k = 1` is within tolerance (`|1 − ¼| ≤ 1`), yet `select` returns the observation at `offset + 0`
